@@ -291,6 +291,30 @@ def rule_toggle_queued(prog):
     ok = len(evs) >= 2 and looks_states and looks_queue
     res.inst("toggle-decision", where=f.loc, event_calls=len(evs), looks_at_states=looks_states, looks_at_queued_events=looks_queue, ok=ok)
     res.oblige(ok)
+    # press on a pressed key does nothing, tap on a pressed key only releases: the Press events of those arms depend on the
+    # same look at the key's (future) state
+    for arm in ("Press", "Tap"):
+        if sws[0].target(arm) is None:
+            continue
+        reg = sws[0].arm_region(arm)
+        presses = []
+        for b in sorted(reg):
+            t = f.term(b)
+            if t["k"] == "call" and (callee_name(t) or "").split("::")[-1] == "event" and len(t["args"]) > 1:
+                d = f.single_def(t["args"][1]["l"]) if is_place(t["args"][1]) and not proj(t["args"][1]) else None
+                if d and d[2] == "assign" and d[3]["k"] == "agg" and d[3].get("v") == "Press":
+                    presses.append(b)
+        cal = set()
+        for b in presses:
+            cal |= dependence_slice(f, b)[1]
+        oka = bool(presses) and any(c.split("::")[-1] == "last_queued_event" for c in cal) and any(c.endswith("states_has_coord") for c in cal)
+        res.inst("%s-decision" % arm.lower(), where=f.loc, press_events=len(presses), ok=oka)
+        res.oblige(oka)
+        if not oka:
+            res.viol("%s-decision" % arm.lower(), f.loc,
+                     "the %s arm of handle_fakekey_action queues the press without looking at whether the key is (or is about to be) "
+                     "pressed: the documentation says press does nothing and tap only releases when the key is already pressed - pressing a "
+                     "toggle-style virtual key twice undoes the first press, and press press tap on a mouse button clicks three times" % arm)
     if not ok:
         res.viol("toggle-decision", f.loc,
                  "the Toggle arm of handle_fakekey_action chooses between press and release %s: an operation on the key that is still "
